@@ -79,3 +79,35 @@ Definition json_report_parse (s : bytes) : option jreport :=
     | None => None
     end
   | _, _ => None end | _, _ => None end | _, _ => None end | _, _ => None end end end.
+
+(* the same reader for a report that is followed by more text (the report embedded in the packed tuple): returns the rest *)
+Definition json_report_parse_rest (s : bytes) : option (jreport * bytes) :=
+  match is_prefix s_k1 s with None => None | Some r1 =>
+  let '(dg, r2) := span is_hex_char r1 in
+  match is_prefix s_k2 r2 with None => None | Some r3 =>
+  let '(sq, r4) := span is_digit r3 in
+  match sq, is_prefix s_k3 r4 with | _ :: _, Some r5 =>
+  let '(ch, r6) := span is_digit r5 in
+  match ch, is_prefix s_k4 r6 with | _ :: _, Some r7 =>
+  let '(va, r8) := span is_digit r7 in
+  match va, is_prefix s_k5 r8 with | _ :: _, Some r9 =>
+  let '(ts, r10) := span is_digit r9 in
+  match ts, is_prefix s_k6 r10 with | _ :: _, Some r11 =>
+    let vals := match is_prefix s_k7 r11 with
+                | Some _ => Some ([], r11)
+                | None => parse_values (S (length r11)) r11 end in
+    match vals with
+    | Some (vs, r12) =>
+        match is_prefix s_k7 r12 with
+        | Some r13 =>
+            let mk b := {| j_digest := dg; j_seq := digits_val sq; j_chan := digits_val ch; j_va := digits_val va;
+                           j_ts := digits_val ts; j_values := vs; j_specimen := b |} in
+            match is_prefix s_true r13 with
+            | Some rest => Some (mk true, rest)
+            | None => match is_prefix s_false r13 with Some rest => Some (mk false, rest) | None => None end
+            end
+        | None => None
+        end
+    | None => None
+    end
+  | _, _ => None end | _, _ => None end | _, _ => None end | _, _ => None end end end.
